@@ -25,6 +25,7 @@ structure Arith (α : Type) where
   nat : Nat → α           -- float64 literal of a small natural number
   c25_4 : α               -- 25.4
   c0_25 : α               -- 0.25
+  mmPerPx : α             -- the Go constant 25.4 / 96.0
   pi : α
   neg : α → α
   add : α → α → α
@@ -47,6 +48,11 @@ structure Ops (α : Type) extends Arith α where
   reflectYAbout : Mat α → α → Mat α
   /-- `math.Sincos` -/
   sincos : α → α × α
+  /-- `math.Tan` -/
+  tan : α → α
+  dot : Mat α → Pt α → Pt α
+  /-- the arc case of `Path.Transform` (path.go, property C07): matrix, rx, ry, phi, sweep ↦ rx, ry, phi, sweep -/
+  transformArc : Mat α → α → α → α → Bool → α × α × α × Bool
   /-- LineTo's merge test (path.go:400-425): previous line start, current position, new end -/
   lineExtends : Pt α → Pt α → Pt α → Bool
   /-- Close's merge test (path.go:562-575): `Equal(end.Sub(start).AngleBetween(start.Sub(prev)), 0)` -/
@@ -130,6 +136,7 @@ inductive Tree (α : Type) where
 
 structure CState (α : Type) where
   fill : RGBA
+  evenOdd : Bool
   stroke : RGBA
   sw : α
   cap : Cap
@@ -152,6 +159,7 @@ deriving Repr, Inhabited
 structure Layer (α : Type) where
   path : List (PCmd α)
   fill : RGBA
+  evenOdd : Bool
   stroke : RGBA
   sw : α
   cap : Cap
@@ -232,9 +240,9 @@ def xformStep (acc : Mat α × Bool) (f : String × List α) : Mat α × Bool :=
   | "rotate", [a] => (rotate o m a, e)
   | "rotate", [a, x, y] => (o.translate (rotate o (o.translate m x y) a) (o.neg x) (o.neg y), e)
   | "rotate", _ => (m, true)
-  | "skewx", [_] => (m, e)
+  | "skewx", [a] => (o.mmul m ⟨o.one, o.tan (o.div (o.mul a o.pi) (o.nat 180)), o.zero, o.zero, o.one, o.zero⟩, e)
   | "skewx", _ => (m, true)
-  | "skewy", [_] => (m, e)
+  | "skewy", [a] => (o.mmul m ⟨o.one, o.zero, o.zero, o.tan (o.div (o.mul a o.pi) (o.nat 180)), o.one, o.zero⟩, e)
   | "skewy", _ => (m, true)
   | _, _ => (m, e)
 
@@ -247,6 +255,8 @@ def setAttribute (p : P α) (key : String) (v : Val α) : P α :=
   match key, v with
   | "fill", .color c => { p with ctx := { p.ctx with fill := c } }
   | "fill", .kw "none" => { p with ctx := { p.ctx with fill := transparent } }
+  | "fill-rule", .kw "evenodd" => { p with ctx := { p.ctx with evenOdd := true } }
+  | "fill-rule", .kw "nonzero" => { p with ctx := { p.ctx with evenOdd := false } }
   | "stroke", .color c => { p with ctx := { p.ctx with stroke := c } }
   | "stroke", .kw "none" => { p with ctx := { p.ctx with stroke := transparent } }
   | "stroke-width", .dim n u =>
@@ -266,9 +276,13 @@ def setAttribute (p : P α) (key : String) (v : Val α) : P α :=
   | "stroke-linejoin", .kw "miter-clip" => { p with ctx := { p.ctx with join := .miterClip p.st.miter } }
   | "stroke-linejoin", .kw "round" => { p with ctx := { p.ctx with join := .round } }
   | "stroke-miterlimit", .dim n u =>
-    -- the assignment `miter.Limit = …` (svg.go:773) is to a copy: only svg.state changes
+    -- the limit also reaches a miter joiner that is in use (both gap joiners are `MiterJoiner`)
     let (w, e) := parseDimension o n u p.diagonal
-    { p with err := p.err || e, st := { p.st with miter := w } }
+    let j := match p.ctx.join with
+      | .miter _ => .miter w
+      | .miterClip _ => .miterClip w
+      | j => j
+    { p with err := p.err || e, st := { p.st with miter := w }, ctx := { p.ctx with join := j } }
   | "transform", .xform l =>
     let (m, e) := parseTransform o l
     { p with err := p.err || e, ctx := { p.ctx with view := o.mmul p.ctx.view m } }
@@ -323,20 +337,32 @@ def selApplies (elems : List Elem) (sels : Selector) : Nat → Nat → Bool
 /-- `cssRule.AppliesTo(svg.elemStack)`; `elems` innermost first -/
 def ruleApplies (r : Rule α) (elems : List Elem) : Bool :=
   let es := elems.reverse
-  r.selectors.any (fun s => selApplies es s (es.length + 2) 0)
+  r.selectors.any (fun s =>
+    -- the subject of the selector (its last compound) must be the element itself
+    (match s.getLast?, elems.head? with
+     | some n, some e => n.applies e
+     | _, _ => false) && selApplies es s (es.length + 2) 0)
 
 /-! ## setStyling (svg.go:691-712) -/
 
 def applyRules (p : P α) (rules : List (Rule α)) : P α :=
   rules.foldl (fun p r => if ruleApplies r p.elems then setProps o p r.props else p) p
 
-def applyAttr (p : P α) (a : Attr α) : P α :=
+/-- first pass: presentation attributes (lowest precedence) -/
+def applyPlain (p : P α) (a : Attr α) : P α :=
   match a with
   | .plain k v => setAttribute o p k v
+  | .style _ => p
+
+/-- last pass: the style attribute (overrides attributes and rules) -/
+def applyStyle (p : P α) (a : Attr α) : P α :=
+  match a with
+  | .plain _ _ => p
   | .style props => setProps o p props
 
 def setStyling (p : P α) (attrs : List (Attr α)) : P α :=
-  attrs.foldl (applyAttr o) (applyRules o p p.rules)
+  let p1 := attrs.foldl (applyPlain o) p
+  attrs.foldl (applyStyle o) (applyRules o p1 p1.rules)
 
 /-! ## mini path builder (path.go MoveTo/LineTo/ArcTo/Close), newest command first -/
 
@@ -426,6 +452,18 @@ def roundedRectangle (w h r : α) : RPath α :=
     let p := arcTo0 o r r false sweep ⟨z, o.sub h r⟩ p
     close o p
 
+/-- `Path.Transform(m)` on the commands a rounded rectangle consists of (path.go, property C07) -/
+def transformPath (m : Mat α) (cs : RPath α) : RPath α :=
+  cs.map (fun c => match c with
+    | .move q => .move (o.dot m q)
+    | .line q => .line (o.dot m q)
+    | .close q => .close (o.dot m q)
+    | .quad c q => .quad (o.dot m c) (o.dot m q)
+    | .cube c1 c2 q => .cube (o.dot m c1) (o.dot m c2) (o.dot m q)
+    | .arc rx ry phi large sweep q =>
+      let (rx', ry', phi', sweep') := o.transformArc m rx ry phi sweep
+      .arc rx' ry' phi' large sweep' (o.dot m q))
+
 def ellipse (rx ry : α) : RPath α :=
   if o.equal rx o.zero || o.equal ry o.zero then [] else
   let p := moveTo ⟨rx, o.zero⟩ []
@@ -449,13 +487,13 @@ def drawPath (p : P α) (x y : α) (path : RPath α) : P α :=
   let m := o.translate (o.mmul (o.reflectYAbout o.ident (o.div p.ch (o.nat 2))) c.view) x y
   let len := p.lens.headD o.zero
   let (d, ok) := o.checkDash c.dashOff c.dashes len
-  let l : Layer α := { path := path.reverse, fill := c.fill, stroke := if ok then c.stroke else transparent,
+  let l : Layer α := { path := path.reverse, fill := c.fill, evenOdd := c.evenOdd, stroke := if ok then c.stroke else transparent,
                        sw := c.sw, cap := c.cap, join := c.join, dashOff := c.dashOff, dashes := d, m := m }
   { p with layers := l :: p.layers, lens := p.lens.tail }
 
 /-! ## drawShape (svg.go:813-877) -/
 
-def drawShape (p : P α) (tag : String) (attrs : List (Attr α)) : P α :=
+def drawShapeCore (p : P α) (tag : String) (attrs : List (Attr α)) : P α :=
   match tag with
   | "circle" =>
     let a := dimAttr o p attrs "cx" p.width
@@ -493,13 +531,31 @@ def drawShape (p : P α) (tag : String) (attrs : List (Attr α)) : P α :=
     let d := dimAttr o c.2 attrs "height" c.2.height
     match lookup attrs "rx", lookup attrs "ry" with
     | none, none => drawPath o d.2 a.1 b.1 (rectangle o c.1 d.1)
-    | _, none =>
-      let r := dimAttr o d.2 attrs "rx" d.2.width
-      drawPath o r.2 a.1 b.1 (roundedRectangle o c.1 d.1 r.1)
-    | _, some _ =>
-      let r := dimAttr o d.2 attrs "ry" d.2.height
-      drawPath o r.2 a.1 b.1 (roundedRectangle o c.1 d.1 r.1)
+    | hx, hy =>
+      let r1 := dimAttr o d.2 attrs "rx" d.2.width
+      let r2 := dimAttr o r1.2 attrs "ry" r1.2.height
+      -- a missing radius takes the value of the other; each is limited to half its own side
+      let rx := if hx.isNone then r2.1 else r1.1
+      let ry := if hx.isNone then r2.1 else if hy.isNone then r1.1 else r2.1
+      let rx := o.min rx (o.div c.1 (o.nat 2))
+      let ry := o.min ry (o.div d.1 (o.nat 2))
+      drawPath o r2.2 a.1 b.1
+        (if o.equal rx o.zero || o.equal ry o.zero then rectangle o c.1 d.1
+         else
+           -- elliptical corners: circular ones on a rectangle of width w·ry/rx, scaled by rx/ry in x
+           transformPath o (o.scale o.ident (o.div rx ry) o.one) (roundedRectangle o (o.div (o.mul c.1 ry) rx) d.1 ry))
   | _ => p
+
+/-- SVG dash lengths are in user units, canvas dash lengths in multiples of the stroke width: for the
+shape itself offset and array are divided by the current stroke width (`ScaleDash(1/w, …)`), and
+restored afterwards (svg.go drawShape, the `defer`) -/
+def drawShape (p : P α) (tag : String) (attrs : List (Attr α)) : P α :=
+  let w := p.ctx.sw
+  if !p.ctx.dashes.isEmpty && o.lt o.zero w && !(o.beq w o.one) then
+    let f := o.div o.one w
+    let q := drawShapeCore o { p with ctx := { p.ctx with dashOff := o.mul p.ctx.dashOff f, dashes := p.ctx.dashes.map (fun d => o.mul d f) } } tag attrs
+    { q with ctx := { q.ctx with dashOff := p.ctx.dashOff, dashes := p.ctx.dashes } }
+  else drawShapeCore o p tag attrs
 
 /-! ## push / pop (svg.go:111-126) and the document walk (svg.go:879-978) -/
 
@@ -541,24 +597,24 @@ structure SvgHead (α : Type) where
 /-- width, height (as handed to `init`), the view box array and the error flag -/
 def parseViewBox (h : SvgHead α) : α × α × (α × α × α × α) × Bool :=
   let vb := h.viewBox.getD (o.zero, o.zero, o.zero, o.zero)
-  let fromVB (lo hi : α) : α := o.div (o.mul (o.sub hi lo) o.c25_4) (o.nat 96)
+  let fromVB (len : α) : α := o.div (o.mul len o.c25_4) (o.nat 96)   -- viewBox is min-x min-y width height
   let (w, e1) := match h.width with
-    | some (n, u) => if u == "%" then (fromVB vb.1 vb.2.2.1, false) else parseDimension o n u o.one
-    | none => (fromVB vb.1 vb.2.2.1, false)
+    | some (n, u) => if u == "%" then (fromVB vb.2.2.1, false) else parseDimension o n u o.one
+    | none => (fromVB vb.2.2.1, false)
   let (hh, e2) := match h.height with
-    | some (n, u) => if u == "%" then (fromVB vb.2.1 vb.2.2.2, false) else parseDimension o n u o.one
-    | none => (fromVB vb.2.1 vb.2.2.2, false)
+    | some (n, u) => if u == "%" then (fromVB vb.2.2.2, false) else parseDimension o n u o.one
+    | none => (fromVB vb.2.2.2, false)
   (w, hh, vb, e1 || e2)
 
 def defaultCtx : CState α :=
-  { fill := black, stroke := transparent, sw := o.one, cap := .butt, join := .miter (o.nat 4),
+  { fill := black, evenOdd := false, stroke := transparent, sw := o.one, cap := .butt, join := .miter (o.nat 4),
     dashOff := o.zero, dashes := [], view := o.ident }
 
 def init (width height : α) (vb : α × α × α × α) (err : Bool) (lens : List α) : P α :=
   let w := o.div (o.mul width (o.nat 96)) o.c25_4
   let h := o.div (o.mul height (o.nat 96)) o.c25_4
-  let dw := o.sub vb.2.2.1 vb.1
-  let dh := o.sub vb.2.2.2 vb.2.1
+  let dw := vb.2.2.1
+  let dh := vb.2.2.2
   let view := if o.lt o.zero dw && o.lt o.zero dh then
       o.translate (o.scale o.ident (o.div width dw) (o.div height dh)) (o.neg vb.1) (o.neg vb.2.1)
     else o.ident
@@ -570,6 +626,14 @@ def init (width height : α) (vb : α × α × α × α) (err : Bool) (lens : Li
 /-- `ParseSVG` on a document whose root is `<svg>` (the root's own attributes are `attrs`) -/
 def parseSVG (h : SvgHead α) (attrs : List (Attr α)) (children : List (Tree α)) (lens : List α) : P α :=
   let (w, hh, vb, e) := parseViewBox o h
+  -- a given width/height is in px (the user unit when there is no viewBox), the canvas is in mm (svg.go ParseSVG)
+  let given (d : Option (α × String)) : Bool := match d with | some (_, u) => u != "%" | none => false
+  let (w, vb) := if given h.width then
+      (o.mul w o.mmPerPx, if o.le (o.sub vb.2.2.1 vb.1) o.zero then (vb.1, vb.2.1, o.add vb.1 w, vb.2.2.2) else vb)
+    else (w, vb)
+  let (hh, vb) := if given h.height then
+      (o.mul hh o.mmPerPx, if o.le (o.sub vb.2.2.2 vb.2.1) o.zero then (vb.1, vb.2.1, vb.2.2.1, o.add vb.2.1 hh) else vb)
+    else (hh, vb)
   walk o (.elem "svg" attrs children) (init o w hh vb e lens)
 
 end Model
